@@ -1,0 +1,69 @@
+package accesscontroller
+
+import (
+	"bytes"
+	"encoding/hex"
+	"fmt"
+
+	logac "berty.tech/go-ipfs-log/accesscontroller"
+	"github.com/libp2p/go-libp2p/core/crypto"
+)
+
+// VerifyEntryIdentity checks that the author fields of an entry can be trusted before its identity id is
+// compared with a write list: the entry must be signed with the key of the identity it carries, and, for
+// identities of the "orbitdb" type, the identity block must be genuine, i.e. its public key is bound to
+// its id by the two signatures made when the identity was created (id signed by the identity's key, and
+// public key plus that signature signed by the key the id is derived from).
+func VerifyEntryIdentity(entry logac.LogEntry) error {
+	if entry == nil {
+		return fmt.Errorf("entry is not defined")
+	}
+
+	identity := entry.GetIdentity()
+	if identity == nil {
+		return fmt.Errorf("entry has no identity")
+	}
+
+	if keyed, ok := entry.(interface{ GetKey() []byte }); ok {
+		if !bytes.Equal(keyed.GetKey(), identity.PublicKey) {
+			return fmt.Errorf("entry is not signed with the key of its identity")
+		}
+	}
+
+	if identity.Type != "orbitdb" {
+		// other identity types are verified by their own provider
+		return nil
+	}
+
+	if identity.Signatures == nil {
+		return fmt.Errorf("identity has no signatures")
+	}
+
+	publicKey, err := crypto.UnmarshalSecp256k1PublicKey(identity.PublicKey)
+	if err != nil {
+		return fmt.Errorf("unable to parse identity public key: %w", err)
+	}
+
+	ok, err := publicKey.Verify([]byte(identity.ID), identity.Signatures.ID)
+	if err != nil || !ok {
+		return fmt.Errorf("identity id is not signed by the identity's key")
+	}
+
+	idKeyBytes, err := hex.DecodeString(identity.ID)
+	if err != nil {
+		return fmt.Errorf("unable to decode identity id: %w", err)
+	}
+
+	idKey, err := crypto.UnmarshalSecp256k1PublicKey(idKeyBytes)
+	if err != nil {
+		return fmt.Errorf("unable to parse the key the identity id is derived from: %w", err)
+	}
+
+	signed := []byte(hex.EncodeToString(append(append([]byte{}, identity.PublicKey...), identity.Signatures.ID...)))
+	ok, err = idKey.Verify(signed, identity.Signatures.PublicKey)
+	if err != nil || !ok {
+		return fmt.Errorf("identity public key is not signed by the key of its id")
+	}
+
+	return nil
+}
